@@ -18,8 +18,8 @@
                    ToggleCode, Reparse); they say nothing about signing and are not among the four.
    The signer of each signature is kept in a_contains because Verify(k) asks for it.
 
-   Domain: well-formed envelopes ([wf]): a header is present, no nil stamp/link, every signature
-   is a real one - exactly the states the API operations reach from NewEnvelope. *)
+   Domain: well-formed envelopes ([wf]): a header is present and every signature entry is a
+   real one - what the API operations keep true from NewEnvelope on. *)
 From Coq Require Import ZArith List Bool.
 From Verif Require Import Base.Wire Env.Header Env.Sig Env.Lifecycle.
 Import ListNotations.
@@ -86,8 +86,7 @@ Definition abs (e : env) : absst :=
 End WithHash.
 
 Definition wf (e : env) : Prop :=
-  (exists h, head e = Some h /\ has_none (stamps h) = false /\ has_none (links h) = false) /\
-  forallb is_real (sigs e) = true.
+  (exists h, head e = Some h) /\ forallb is_real (sigs e) = true.
 
 Definition api_op (o : op) : Prop :=
   match o with
@@ -110,7 +109,7 @@ Definition sig_verdict (ks : list keyid) (f : keyid * bool) : bool :=
 
 Definition verify_tbl (a : absst) (ks : list keyid) : outcome :=
   match a_contains a with
-  | [] => ERR EOther
+  | [] => ERR ESignature
   | l => if forallb (sig_verdict ks) l then OK else ERR EValidation
   end.
 
